@@ -1,3 +1,4 @@
+import JadeModel.Proofs.SystemGen
 import JadeModel.Proofs.SystemCap
 import JadeModel.Proofs.SystemRows
 import JadeModel.Props.Queue
